@@ -65,11 +65,11 @@ std::vector<u64> double_values(bool th)
 void explore16(Options const& o, std::vector<Shim*> const& shims, std::vector<Shim*> const&, Recorder& rec)
   {
   bool th = o.tier == "thorough";
-  std::vector<i64> Sa = th ? S_set(4,2) : S_set(3,1);
+  std::vector<i64> Sa = merge_sets(th ? S_set(4,2) : S_set(3,1), D_set(th ? 1 : 0));
   std::vector<std::vector<u64>> tv(T_CODES);
   for( int t : INT_TYPES ) tv[t] = int_type_values(t, th ? 5 : 3, 1, th ? 32 : 4, th);
   tv[T_F32] = float_values(th); tv[T_F64] = double_values(th);
-  { std::string d = "a in S', |S'|=" + std::to_string(Sa.size()) + "; operand values per type:"; for( int t : ALL_TYPES ) d += std::string(" ") + TN[t] + "=" + std::to_string(tv[t].size());
+  { std::string d = "a in S' u D (digit-pattern words), |S' u D|=" + std::to_string(Sa.size()) + "; operand values per type:"; for( int t : ALL_TYPES ) d += std::string(" ") + TN[t] + "=" + std::to_string(tv[t].size());
     rec.note("alphabet", d + "; x 4 operators x {a op t, t op a, a op= t}"); }
   C16 c(rec);
   for( size_t ci = 0; ci < shims.size(); ++ci )
@@ -261,19 +261,29 @@ struct C17
     for( auto const& tn : N )
       {
       int nt = tn.first; i64 n = tn.second; u64 nb = static_cast<u64>(n) & t_mask(nt);
-      i64 an = static_cast<i64>(s->fm_mixed(M_MUL, nt, O_FIX_T, a, nb));
-      if( fx_isnan(an) ) continue;
-      if( n != 0 )
+      // every way of writing the product and the quotient: a * n, n * a, x *= n;  q / n, x /= n
+      static const char* MF[3] = { "(a * n)", "(n * a)", "(x = a, x *= n)" };
+      i64 an = 0;
+      for( int mo = 0; mo < 3; ++mo )
         {
-        i64 q = 0; int sg = guarded([&]{ q = static_cast<i64>(s->fm_mixed(M_DIV, nt, O_FIX_T, an, nb)); });
-        if( sg ) lv.hit(c_trap, order, [=]{ return ex1(s, "(a * n) / n", "", {{"a",to_s(a)},{"n",to_s(n)}}, "returns normally", "signal " + std::to_string(sg), "law", {to_s(a)}); });
-        else if( !fx_isnan(q) ) { ++cnt; if( q != a ) bad("(a * n) / n == a", "no intermediate NaN", q, a, 0, n); }
+        i64 p = static_cast<i64>(s->fm_mixed(M_MUL, nt, mo, a, nb));
+        if( mo == 0 ) an = p;
+        if( fx_isnan(p) ) continue;
+        if( n != 0 ) for( int dv = 0; dv < 2; ++dv )
+          {
+          i64 q = 0; int sg = guarded([&]{ q = static_cast<i64>(s->fm_mixed(M_DIV, nt, dv ? O_ASSIGN : O_FIX_T, p, nb)); });
+          std::string form = std::string(MF[mo]) + (dv ? " /= n" : " / n");
+          if( sg ) lv.hit(c_trap, order, [=]{ return ex1(s, form, TN[nt], {{"a",to_s(a)},{"n",to_s(n)}}, "returns normally", "signal " + std::to_string(sg), "law", {to_s(a)}); });
+          else if( !fx_isnan(q) ) { ++cnt; if( q != a ) lv.hit(c_law, order, [=]{ return ex1(s, form + " == a", TN[nt], {{"a",to_s(a)},{"n",to_s(n)}}, to_s(a) + " (no intermediate NaN)", to_s(q), "law", {to_s(a)}); }); }
+          }
         }
+      if( fx_isnan(an) ) continue;
       if( n >= 0 && (n <= 64 || (long_sums && n <= 255)) )
         {
-        i64 sum = 0; bool ok = true;
-        for( i64 k = 0; k < n && ok; ++k ) { sum = add(sum, a); if( fx_isnan(sum) ) ok = false; }
-        if( ok ) { ++cnt; if( sum != an ) bad("a * n == a + a + ... + a (n times)", "no intermediate NaN", an, sum, 0, n); }
+        i64 sum = 0, sum2 = 0; bool ok = true;
+        for( i64 k = 0; k < n && ok; ++k ) { sum = add(sum, a); sum2 = s->fm_bin(B_ADDEQ, sum2, a); if( fx_isnan(sum) ) ok = false; }
+        if( ok ) { ++cnt; if( sum != an ) bad("a * n == a + a + ... + a (n times)", "no intermediate NaN", an, sum, 0, n);
+                   if( sum2 != an ) bad("a * n == (x = 0, x += a, ... n times)", "no intermediate NaN", an, sum2, 0, n); }
         }
       }
     return cnt;
@@ -427,6 +437,32 @@ void replay17(Options const& o, Shim* s, Recorder& rec)
     }
   rec.add_states(1,1,1);
   }
+// pointwise clauses only: fixed*integer, integer*fixed, fixed/integer (exact integer semantics) and the double forms (IEEE on
+// double(a)); the "equals the promoted computation" clause relates two calls and is judged as a law line by the driver
+bool judge16(Shim* s, Recorder& rec, std::string const& kind, std::vector<u64> const& a, u64 value, u64 idx)
+  {
+  if( !(kind == "mixed" && a.size() == 5) ) return false;
+  C16 c(rec);
+  int op = static_cast<int>(a[0]), t = static_cast<int>(a[1]), ord = static_cast<int>(a[2]); i64 x = static_cast<i64>(a[3]); u64 tb = a[4];
+  if( !fx_finite(x) ) return true;
+  auto mk = [&](std::string e, std::string g) { return ex1(s, std::string("operator ") + OPC[op] + " (" + ORDS[ord] + ")", TN[t], {{"a",to_s(x)},{"t",C16::tval(t, tb)}}, e, g, "mix", {}); };
+  if( t == T_F64 )
+    {
+    if( ord == O_ASSIGN ) return false;
+    if( x > (1ll << 53) || x < -(1ll << 53) ) return true;
+    double da = static_cast<double>(x) / 65536.0, dv = bits_d(tb);
+    u64 e = d_bits(ord == O_FIX_T ? ieee(op, da, dv) : ieee(op, dv, da));
+    if( !dbl_same(value, e) ) rec.viol(c.c_double, idx, [&]{ return mk(hex(e) + " (" + dbl_s(bits_d(e)) + ")", hex(value) + " (" + dbl_s(bits_d(value)) + ")"); });
+    return true;
+    }
+  if( is_int_type(t) && ((op == M_MUL) || (op == M_DIV && ord != O_T_FIX)) )
+    {
+    if( !C16::exact_scalar(op, x, int_value(t, tb), static_cast<i64>(value)) ) rec.viol(c.c_exact, idx, [&]{ return mk("exact integer semantics", to_s(static_cast<i64>(value))); });
+    return true;
+    }
+  return false;
+  }
 }
 REGISTER_PROPERTY(C16, explore16, replay16)
+REGISTER_JUDGE(C16, judge16)
 REGISTER_PROPERTY(C17, explore17, replay17)
